@@ -1,4 +1,5 @@
 import RedkaModel.WireProto
+import RedkaModel.SockJudge
 
 /-!
   `wiredriver`: judges the lines of `verifharness wire` against `Redka.Wire.handleX`.
@@ -128,7 +129,11 @@ partial def loop (h : IO.FS.Stream) (out : IO.FS.Stream) : IO Unit := do
   let line ← h.getLine
   if line.isEmpty then return ()
   let l := line.trimAsciiEnd.toString
-  if !l.isEmpty then
+  if l.startsWith "#" then
+    out.putStrLn l
+  else if l.startsWith "SOCK " then
+    out.putStrLn (Redka.SockJudge.judge l)
+  else if !l.isEmpty then
     out.putStrLn (judge l)
   loop h out
 
